@@ -25,6 +25,7 @@ type ReplaySpec struct {
 	Tags         []string
 	SchedRT      bool
 	ExtraOverlay map[string]string // repo file (abs) -> replacement file (abs), e.g. instrumented sources
+	Env          []string
 }
 
 type ReplayOutcome struct {
@@ -105,7 +106,11 @@ func WriteReplay(dir string, spec ReplaySpec, values map[string]string, params m
 	if len(spec.Tags) > 0 {
 		tags = " -tags=" + strings.Join(spec.Tags, ",")
 	}
-	cmd := fmt.Sprintf("#!/bin/sh\n# native replay of a solver counterexample against the real package\nexport GOFLAGS=-mod=mod GOPROXY=off GOSUMDB=off GOTOOLCHAIN=local\ncd %s && VERIF_VALUES=%s/values.json timeout 120 go test%s -vet=off -count=1 -timeout 60s -overlay=%s/overlay.json -run '^TestVerifReplay$' -v ./%s/\n",
+	envs := ""
+	for _, e := range spec.Env {
+		envs += e + " "
+	}
+	cmd := fmt.Sprintf("#!/bin/sh\n# native replay of a solver counterexample against the real package\nexport GOFLAGS=-mod=mod GOPROXY=off GOSUMDB=off GOTOOLCHAIN=local\ncd %s && "+envs+"VERIF_VALUES=%s/values.json timeout 120 go test%s -vet=off -count=1 -timeout 60s -overlay=%s/overlay.json -run '^TestVerifReplay$' -v ./%s/\n",
 		spec.RepoDir, dir, tags, dir, spec.PkgDir)
 	return os.WriteFile(filepath.Join(dir, "cmd.sh"), []byte(cmd), 0o755)
 }
